@@ -593,6 +593,7 @@ func main() {
 	translateFrCodec(*repo, writeImp)
 	translateBatchConv(*repo, writeImp)
 	translateSqrtFp(*repo, writeImp)
+	translateTranscript(*repo, writeImp)
 	fmt.Println("extract: ok")
 }
 
